@@ -195,7 +195,7 @@ def main(tier):
     run_plan(ck, plan, budget_ms(tier), native_limit=7 if not big else 9, prop_prefix="C10.")
     # int_to_binary, and assert_k_of_n for EVERY n and k (pop_count by contract): under the definitional clauses the asserted units hold iff exactly k inputs are true
     # and _inequality_assertion (fewer than / more than k) for every n and k: under the definitions the final unit clause holds iff count < k (count > k)
-    run_wp(ck, ["int_to_binary", "assert_k_of_n", "inequality_assertion"], budget_ms(tier), prefix="C10.")
+    run_wp(ck, ["int_to_binary", "assert_k_of_n", "inequality_assertion", "make_same_length"], budget_ms(tier), prefix="C10.")
     dispatch_checks(ck, tier)
     int_to_binary_native(ck, tier)
     ck.trust("z3 / cvc5", "pycryptosat (native replay, dispatch check)", "CPython semantics of the executed encoder code")
